@@ -182,3 +182,24 @@ Example wire_safe_inhabited :
   deliver ex_ep ex_payload = Delivered (with_defaults ex_ep ex_payload) /\
   length (with_defaults ex_ep ex_payload) = 8.
 Proof. exact (conj ex_wf (conj ex_valid (conj ex_safe (conj ex_delivered ex_nontrivial)))). Qed.
+
+(* ---- content types (http/encoding.go RequestEncoder / RequestDecoder) ---- *)
+From Transport Require Import LemmasContent.
+
+(* a request whose Content-Type the design does not set: the generated client announces
+   application/json and the server decodes the body with the JSON codec *)
+Theorem request_codec_agrees_default :
+  req_decoder (snd (req_encoder [])) true = RDec (fst (req_encoder [])).
+Proof. exact req_codec_agrees_default. Qed.
+Print Assumptions request_codec_agrees_default.
+
+(* REFUTED in general: when the caller's payload sets Content-Type (an attribute mapped to
+   that header) to a "+json" media type - which goa's own ResponseDecoder reads as JSON - the
+   client still writes a JSON body, and RequestDecoder, which matches exact names only,
+   refuses it (415): the payload never reaches the service method *)
+Theorem request_codec_refuted_json_suffix :
+  resp_decoder EX.merge_patch true = CJson /\
+  req_encoder EX.merge_patch = (CJson, EX.merge_patch) /\
+  req_decoder (snd (req_encoder EX.merge_patch)) true = RUnsupported EX.merge_patch.
+Proof. exact req_refuted_json_suffix. Qed.
+Print Assumptions request_codec_refuted_json_suffix.
